@@ -439,7 +439,9 @@ def k2_k3_k6(prog, rep):
         else:
             pl = [e for e in p.all_elems() if e.is_assign and norm(e.kid(0))[0] == "v" and norm(e.kid(0))[1] == "plen"]
             v = norm(pl[0].kid(1)) if pl else None
-            okp = v is not None and v[0] == "?:" and v[1][0] == "<" and v[1][2] == ("c", 56) and show(v[2]) == "(56 - r)" and show(v[3]) == "(120 - r)"
+            lt56 = v is not None and v[0] == "?:" and ((v[1][0] == "<" and v[1][2] == ("c", 56)) or (v[1][0] == "<=" and v[1][2] == ("c", 55)))
+            ge56 = v is not None and v[0] == "?:" and ((v[1][0] == ">=" and v[1][2] == ("c", 56)) or (v[1][0] == ">" and v[1][2] == ("c", 55)))
+            okp = (lt56 and show(v[2]) == "(56 - r)" and show(v[3]) == "(120 - r)") or (ge56 and show(v[2]) == "(120 - r)" and show(v[3]) == "(56 - r)")
             ups = sorted(p.calls(pref + "_Update"), key=lambda c: c.line)
             okp = okp and len(ups) == 2 and show(norm(ups[0].arg(1))) == "PAD" and show(norm(ups[0].arg(2))) == "plen" and show(norm(ups[1].arg(1))) == "len" and norm(ups[1].arg(2)) == ("c", 8)
             e0 = list(p.calls(enc))
